@@ -293,7 +293,7 @@ Qed.
 (* non-vacuity: the hypotheses hold on the example graph, and the loop does return the 2-step path there *)
 Example bfs_example :
   wf_graph ex_graph /\ (0 < g_n ex_graph)%nat /\ ord_perm (fun _ l => l) /\
-  bfs ex_graph 0 (fun _ l => l) = Found [0; 2; 3]%nat [1; 0]%nat 2 [0; 1]%nat.
+  bfs ex_graph 0 (fun _ l => l) = Found [0; 2; 3]%nat [1; 0]%nat 2 [2; 1; 0]%nat.
 Proof.
   split; [apply wf_graphb_sound; reflexivity|]. split; [simpl; lia|]. split; [intros k l e; tauto | reflexivity].
 Qed.
